@@ -93,6 +93,7 @@ type StreamPlan struct {
 	Echo    bool  `json:"echo,omitempty"`  // server echoes every client message
 	Sizes   []int `json:"sizes,omitempty"` // sizes of client messages
 	PSizes  []int `json:"psizes,omitempty"`
+	BadPush bool  `json:"badpush,omitempty"` // the handler first tries to push a message the codec cannot encode
 	Empty   int   `json:"empty,omitempty"` // every Empty-th message in each direction is the zero message (0 bytes under pb)
 	RBuf    int   `json:"rbuf,omitempty"` // capacity of the buffer handed to ReadMessage on both ends (0: nil)
 	Readers2 bool `json:"r2,omitempty"` // a second goroutine reads on each end (C10: every blocked reader is released)
@@ -595,6 +596,11 @@ func (ss *StreamSvc) run(read func(*Msg) error, write func(*Msg) error) error {
 	w.streamEvQ.WakeAll()
 	w.Execs = append(w.Execs, &ExecRec{Server: w.P.Conns[rec.Plan.Conn].Server, ID: uint64(1<<40 + ss.k), Shape: "stream", Start: rec.HandlerStart, Stream: true, G: simrt.Self()})
 	defer func() { rec.HandlerEnd = simrt.Seq() }()
+	if rec.Plan.BadPush {
+		// fails on the server before anything is written; only this write may be affected
+		write(&Msg{ID: badMarshalID})
+		w.Probe("unencodable-stream-push")
+	}
 	for i := 0; i < rec.Plan.Push; i++ {
 		id := uint64(ss.k)<<32 | uint64(1<<20+i)
 		sz := 8
